@@ -53,3 +53,12 @@ func (il *inputFieldList) get(name string) (i *InputField) {
 	}
 	return
 }
+
+// dup returns a copy that does not share the dictionary with the original.
+func (il *inputFieldList) dup() inputFieldList {
+	d := inputFieldList{dict: make(map[string]*InputField, len(il.dict)), list: il.list}
+	for k, v := range il.dict {
+		d.dict[k] = v
+	}
+	return d
+}
